@@ -33,4 +33,16 @@ def utf8Decode : Bytes → Option (List Nat)
 
 def validUtf8 (b : Bytes) : Bool := (utf8Decode b).isSome
 
+/-- UTF-8 encoding of one code point (`char::encode_utf8`) -/
+def utf8EncodeCp (c : Nat) : Bytes :=
+  if c < 128 then [UInt8.ofNat c]
+  else if c < 2048 then [UInt8.ofNat (192 + c / 64), UInt8.ofNat (128 + c % 64)]
+  else if c < 65536 then [UInt8.ofNat (224 + c / 4096), UInt8.ofNat (128 + c / 64 % 64), UInt8.ofNat (128 + c % 64)]
+  else [UInt8.ofNat (240 + c / 262144), UInt8.ofNat (128 + c / 4096 % 64), UInt8.ofNat (128 + c / 64 % 64), UInt8.ofNat (128 + c % 64)]
+
+def utf8Encode (cs : List Nat) : Bytes := cs.flatMap utf8EncodeCp
+
+/-- Latin-1 bytes as a Rust `String` (UTF-8): every byte is one character -/
+def latin1ToUtf8 (b : Bytes) : Bytes := utf8Encode (b.map UInt8.toNat)
+
 end Edp
